@@ -28,6 +28,18 @@ CHECKS={
    text="Bounded-exhaustive: every PASTE host x every macro body admitted there x definition before/after use x nesting depth 1..3 x explicit/implicit host context x pasted once/twice, pool documents with macros, and ALL paste graphs over <=4 macros (2^16 edge sets) x definition order x used/unused; oracle = accepted => inlined document accepted with byte-identical JSON, unused macro contributes nothing, every cyclic / undefined / duplicate case rejected without crash (a dying worker process is a violation).",
    ref="DESIGN.md §5 C07", note="Bound: <=4 macros in a graph, nesting depth <=3, body alphabet of the hosts. The converse (inlining accepted => macro form accepted) is not stated by the property and only counted.",
    technique=T_MC+"bounded-exhaustive enumeration of paste graphs and paste placements (reference inliner as the model), crash-isolated workers"),
+ "C08":dict(engine="E-DOC",
+   text="Bounded-exhaustive: every closed selection of <=2 / <=3 pool blocks x every contiguous run of complete top-level declarations and of complete children of every implicitly nesting directive moved into included files (plain, sub-directory with same-named decoys, nested, the same INCLUDE parameter in two directories naming different files, two files from one place, one file twice, empty file); ALL include-name strings of length <=6 / <=7 over {. / \\ a} (validator vs the property's sentence, end to end with canary files outside the project directory); all include target states and cycles of length 1..3 at five placements.",
+   ref="DESIGN.md §5 C08", note="File access outside the project is observed through canary files, not through an I/O shim; an unreadable target cannot be produced as root. The validator rejecting more names than the sentence requires is not a violation.",
+   technique=T_MC+"bounded-exhaustive enumeration of file splittings, name strings and file-system states on a scratch directory tree"),
+ "C18":dict(engine="E-DOC",
+   text="Bounded-exhaustive: {no ban, all 30 single bans, all pairs of the six structural kinds (thorough: all 435 pairs)} x {every closed selection of <=2 pool blocks written directly and with its last declaration in an included file, INCLUDE of a missing file}; oracle from the statement: occurrence (direct / live PASTE / included) => rejected, 'not allowed', located inside an occurrence, named file untouched; no occurrence => verdict, diagnostic and JSON identical to the run without the option.",
+   ref="DESIGN.md §5 C18", note="A banned kind that occurs only inside a never-pasted macro body is not judged. 'File untouched' is observed by naming a missing file (a library that looks first reports a different diagnostic).",
+   technique=T_MC+"bounded-exhaustive enumeration of configurations x documents (reference occurrence model)"),
+ "C11":dict(engine="E-DOC",
+   text="Bounded-exhaustive single-fault injection: every accepted closed selection of <=2 / <=3 pool blocks x every applicable fault of every kind named by the property at every position x delivery {direct, PASTE, INCLUDE}; oracle: rejected and the diagnostic lies inside the source span (in the right file) of a directive that takes part in the fault.",
+   ref="DESIGN.md §5 C11", note="Faults inside never-pasted macro bodies are not judged; for PASTE delivery every PASTE on the way to the faulty macro counts as taking part.",
+   technique=T_MC+"exhaustive single-fault injection over enumerated documents (fault_enumeration style, decided exhaustively)"),
 }
 ENGINES=[
  {"name":"E-SCAN","path":"internal/escan","serves_properties":["C14"],"kind_free_text":"explicit-state BFS over the real scanner.Next with a per-byte hook; abstract key cross-checked by second representatives"},
